@@ -268,4 +268,31 @@ pub fn run(ctx: &Ctx) {
     ctx.generated("near-power-of-ten", "inv", n / 2, "x = 99..9, 99..98, 100..0, 100..01, 100..02 (1..160 digits)", near_pow10_strategy, check_inv);
     ctx.generated("bit-lengths", "inv", n / 2, "integers of prescribed bit length 1..5000 (emphasis 1000..1150)", move || bitlen_strategy(t.pick(3000, 5000)), check_inv);
     ctx.generated("edge-tails", "inv", n, "1/x with 00.. or 99.. right after the p-th digit (p in 1..23)", edge_tail_strategy, check_inv);
+    // precisions far above the default: the number of Newton refinements grows with log2(p) and depends on how good the first guess is,
+    // which is worst just above a power of two
+    ctx.generated(
+        "high-precision",
+        "inv",
+        t.pick(4000u64, 100_000),
+        "p in 150..1300 x (2^k + {-1, 0, 1, small, random below 2^k/8} for k in 1..1100, small integers 3..999, random 1..60 digits), both signs, scales +-50, 7 modes",
+        || {
+            (0..8u8, 1u32..=1100, any::<u64>(), any::<bool>(), -50i64..=50, 150u64..=1300, 0..7u8)
+                .prop_map(|(how, k, r, neg, scale, p, mode)| {
+                    let base = BigInt::from(1) << k;
+                    let v: BigInt = match how {
+                        0 => &base - BigInt::from(1),
+                        1 => base.clone(),
+                        2 | 3 => &base + BigInt::from(1),
+                        4 => &base + BigInt::from(r % 1000),
+                        5 => &base + (&base * BigInt::from(r % 125_000)) / BigInt::from(1_000_000),
+                        6 => BigInt::from(3 + r % 997),
+                        _ => BigInt::from(r) * BigInt::from(r.rotate_left(17) | 1) * BigInt::from(r.rotate_left(41) | 1) + BigInt::from(1),
+                    };
+                    let v = if v <= BigInt::from(0) { BigInt::from(3) } else { v };
+                    InvCase { d: D::new(if neg { format!("-{}", v) } else { v.to_string() }, scale), p, mode }
+                })
+                .boxed()
+        },
+        check_inv,
+    );
 }
